@@ -151,6 +151,17 @@ CLAIMED = {
          "left), and queue start/stop are not decided. MakeSingleTarget's per-target argument selection is not yet under contract. Command ids and "
          "target lists are uninterpreted functions of the message (interface methods assumed deterministic).",
          "DESIGN.md §6 C12"),
+ "C13": ("Proof obligations: TcpEndpoint / IpcEndpoint.ToTargetEndpoint keep port / path and transport and set the host, ToBoundEndpoint binds "
+         "on '*', GetTransport is the field (field-wise postconditions); Outbound.ToFMQMap passes an explicit tcp:// or ipc:// target through with the "
+         "channel's own transport, otherwise takes address AND transport from the endpoint registered under exactly the target's name (map-range "
+         "loop invariant: no visited key equals the target), and fails when nothing matches; Inbound.ToFMQMap binds the endpoint registered under "
+         "its own name in bound form and rejects any other non-empty target; configureTasks registers every local endpoint with the task's host "
+         "substituted and hands exactly that map on; BuildPropertyMap configures inbound channels from the task's own bind map, outbound ones from "
+         "the environment-wide map, and an unresolved outbound channel aborts with an error.",
+         "Endpoint interface methods assumed pure (deterministic functions of the endpoint value). Not yet under contract: the property-map keys "
+         "written by buildFMQMap, the global-alias deduplication branch, MergeInbound/MergeOutbound and CollectInbound/OutboundChannels, and the port "
+         "allocation in makeTaskForMesosResources. Template evaluation of targets and FairMQ's reading of the properties are outside.",
+         "DESIGN.md §6 C13"),
 }
 
 NOT_APPLICABLE = {
